@@ -89,6 +89,7 @@ func writeEvidence(sum *Summary, prop, tier string, opt options, l *Loaded, wall
 			"incomplete":          incomplete,
 			"unconfirmed":         unconf,
 			"problems":            sum.Problems,
+			"notes":               sum.Notes,
 			"known_findings_seen": len(sum.Known),
 			"harness_runs_cross_checked_with_second_solver": sum.CrossChecked,
 			"exit_code":           code,
